@@ -741,17 +741,27 @@ impl Runner {
         match C::from_json(&v) {
             None => self.inconclusive.push(format!("replay file does not decode as a case of check {}", name)),
             Some(c) => {
-                let mut st = Stats::default();
-                for pv in self.replay_pre.clone() {
-                    if let Some(pc) = C::from_json(&pv) {
-                        let mut scratch = Stats { frozen: true, ..Stats::default() };
-                        let _ = guard(|| judge(&pc, &mut scratch));
-                    }
-                }
-                if let Some(ac) = self.replay_arena_calls {
-                    set_arena_calls(ac);
-                }
-                let r = guard(|| judge(&c, &mut st));
+                // judged on a thread of its own, like the workers that found the case: a stack overflow depends on the stack
+                // the call starts from (the main thread has four times a worker's)
+                let pre: Vec<C> = self.replay_pre.iter().filter_map(|pv| C::from_json(pv)).collect();
+                let ac = self.replay_arena_calls;
+                let c2 = c.clone();
+                let (r, st) = std::thread::scope(|s| {
+                    s.spawn(move || {
+                        let mut st = Stats::default();
+                        for pc in &pre {
+                            let mut scratch = Stats { frozen: true, ..Stats::default() };
+                            let _ = guard(|| judge(pc, &mut scratch));
+                        }
+                        if let Some(ac) = ac {
+                            set_arena_calls(ac);
+                        }
+                        let r = guard(|| judge(&c2, &mut st));
+                        (r, st)
+                    })
+                    .join()
+                    .unwrap_or_else(|_| (Err("the judging thread died".to_string()), Stats::default()))
+                });
                 self.stats.merge(st);
                 let r = match r {
                     Ok(r) => r,
@@ -1079,11 +1089,20 @@ impl Runner {
             // child of a triage run: this one case, in-process (a crash or stall here is what the parent looks for)
             self.replay_hit = true;
             let c = gen(&mut Tape::new(&tape));
-            let mut st = Stats::default();
-            if let Some(ac) = self.replay_arena_calls {
-                set_arena_calls(ac);
-            }
-            if let Ok(Err(f)) = guard(|| judge(&c, &mut st)) {
+            let ac = self.replay_arena_calls;
+            // on a thread of its own, with a worker's stack (see do_replay)
+            let c2 = c.clone();
+            let r = std::thread::scope(|s| {
+                s.spawn(move || {
+                    let mut st = Stats::default();
+                    if let Some(ac) = ac {
+                        set_arena_calls(ac);
+                    }
+                    guard(|| judge(&c2, &mut st))
+                })
+                .join()
+            });
+            if let Ok(Ok(Err(f))) = r {
                 self.violations.push(Violation { stage: name.to_string(), fail: f, case: c.to_json(), replay_path: String::new() });
             }
             return;
